@@ -414,6 +414,14 @@ def replay(beh: List[Tuple[list, dict]], space: Space, seed: int, mirror: bool =
         R.live = objs
         C = R
         crashed = True
+        if fam == 'dedup(evo)' and not diverged:
+          # the wrapped evolution's proposal counter after recovery: history length or including the dropped
+          # duplicates - both admissible (Search.tla RecVariants); follow the branch the code takes
+          real_np = R.alg.generator.num_proposals
+          alts = {len(hist), sum(e['draws'] for e in state['hist'])}
+          if real_np != state['alg']['in']['np'] and real_np in alts:
+            res['counters']['other_recovery_variant'] += 1
+            break
         res['counters']['Crash'] += 1
         res['counters'][f'Crash:inflight={sum(1 for h in hist if h[1] is None)}'] += 1
         if fb_order != sorted(fb_order):
